@@ -2,9 +2,11 @@
    Mechanised: transpose is an involution on rectangular tables; unflatten(flatten(t), n) gives back the data rows of an
    n-field table; recast after melt rebuilds every row cell for cell, one output row per input row in ascending key order,
    when keys are unique (the row-building code of recast_model, named recast_group / recast_cell, on the sorted + grouped
-   melt).  Pivot cells, unpack/split frames, fromdicts(dicts(t)) and fromcolumns(columns(t)) are modelled as written
+   melt); pivot's cell law (pivot_cells, the fold pivot_model runs per f1-group); fromdicts(dicts(t)) = t and
+   fromcolumns(columns(t)) = t.  Unpack/split frames are modelled as written
    (model/Reshape.v), tied by the correspondence, and judged on every run on the implementation's output (not mechanised). *)
-From Verif Require Import PyVal Rows ComparableGen Sort Joins JoinRel Basics Reshape ReshapeFacts RecastFacts.
+From Verif Require Import PyVal Rows ComparableGen Sort Joins JoinRel Basics Reductions Reshape ReshapeFacts RecastFacts PivotFacts DictsFacts.
+From Coq Require Import Sorted.
 
 Theorem C14_transpose_involutive : forall n hdr t, (1 <= n)%nat -> rect n (hdr :: t) ->
   exists tr, transpose_model (hdr :: t) = (tr, None) /\ transpose_model tr = (hdr :: t, None).
@@ -42,6 +44,45 @@ Theorem C14_recast_cell_is_the_melted_value : forall (names : list val) (missing
   = Ok (map (fun j => nth j vals VNone) js).
 Proof. exact recast_cells_of_melted_row. Qed.
 
+(* pivot: within one f1-group the cell in the column of an f2 value is the aggregate of exactly the f2-group carrying that
+   value (contributes g j a: group g is written to column j with aggregate a), and `missing` in every column no group of the
+   f1-group is written to; the output row has one cell per f2 value.  Needs the f2-groups to have pairwise different keys... *)
+Theorem C14_pivot_cell_law : forall (i3 agg : Z) (missing : val) (f2vals : list val) (groups : list (val * list row)),
+  distinct_keys groups ->
+  (forall g, In g groups -> exists j a, contributes i3 agg f2vals g j a) ->
+  exists c, pivot_cells i3 agg missing f2vals groups = Ok c /\ length c = length f2vals /\
+    forall m, (m < length f2vals)%nat ->
+      (forall g j a, In g groups -> contributes i3 agg f2vals g j a -> j = m -> nth m c VNone = a)
+      /\ ((forall g j a, In g groups -> contributes i3 agg f2vals g j a -> j <> m) -> nth m c VNone = missing).
+Proof. exact pivot_cells_spec. Qed.
+
+(* ... which they have whenever the rows are sorted by an order whose equivalence is == on the grouping cell (the runs of a
+   sorted stream are its classes); the groups lose no row and keep the order *)
+Theorem C14_pivot_groups_of_a_sorted_stream : forall (i : Z) (le : row -> row -> bool),
+  (forall a b c, le a b = true -> le b c = true -> le a c = true) ->
+  (forall a b, le a b = true \/ le b a = true) ->
+  (forall a b, py_eq (rawkey i a) (rawkey i b) = le a b && le b a) ->
+  forall rows, StronglySorted (fun a b => le a b = true) rows ->
+  distinct_keys (rawgroup i rows) /\ concat (map snd (rawgroup i rows)) = rows.
+Proof. intros i le Ht Hto Hk rows Hs. split; [exact (rawgroup_distinct i le Ht Hto Hk rows Hs)|apply rawgroup_concat]. Qed.
+
+(* fromdicts(dicts(t)) reproduces a rectangular table with pairwise different text field names (at least one data row: the
+   field names travel in the records; any sample size >= 1, any `missing` on either side) *)
+Theorem C14_fromdicts_dicts_id : forall (sample : nat) (m1 m2 : val) (hdr : row) (rows : list row),
+  (1 <= sample)%nat -> rows <> [] ->
+  Forall (fun f => hdr_text f = f) hdr -> distinct_names hdr ->
+  Forall (fun r : row => length r = length hdr) rows ->
+  fromdicts_model sample m2 (dicts_model m1 (hdr :: rows)) = hdr :: rows.
+Proof. exact fromdicts_dicts_id. Qed.
+
+(* fromcolumns(columns(t)) reproduces a rectangular table (at least one field) *)
+Theorem C14_fromcolumns_columns_id : forall (m1 m2 : val) (hdr : row) (rows : list row),
+  (1 <= length hdr)%nat -> Forall (fun f => hdr_text f = f) hdr ->
+  Forall (fun r : row => length r = length hdr) rows ->
+  let cols := columns_model m1 (hdr :: rows) in
+  map fst cols = hdr /\ fromcolumns_model (map fst cols) m2 (map snd cols) = hdr :: rows.
+Proof. exact fromcolumns_columns_id. Qed.
+
 (* melt emits the same number of rows for every input row when no cell is missing (one per variable) *)
 Theorem C14_rows_times_variables : forall (A B : Type) (f : A -> list B) (l : list A) k,
   (forall x, In x l -> length (f x) = k) -> length (flat_map f l) = (length l * k)%nat.
@@ -72,7 +113,22 @@ Example C14_ex_recast_melt :
           [VNum KInt (Fin 2); VNum KInt (Fin 1); VStr [120]]], None).
 Proof. vm_compute. split; reflexivity. Qed.
 
+(* pivot on the operator model: region x gender -> sum of units; a region without a gender gets `missing` *)
+Example C14_ex_pivot :
+  pivot_model (VStr (zs "r")) (VStr (zs "g")) (VStr (zs "u")) 2 (VStr (zs "-")) false None
+    [[VStr (zs "r"); VStr (zs "g"); VStr (zs "u")];
+     [VStr (zs "e"); VStr (zs "m"); VNum KInt (Fin 3)]; [VStr (zs "w"); VStr (zs "f"); VNum KInt (Fin 5)];
+     [VStr (zs "e"); VStr (zs "f"); VNum KInt (Fin 4)]; [VStr (zs "e"); VStr (zs "m"); VNum KInt (Fin 10)]]
+  = ([[VStr (zs "r"); VStr (zs "f"); VStr (zs "m")];
+      [VStr (zs "e"); VNum KInt (Fin 4); VNum KInt (Fin 13)];
+      [VStr (zs "w"); VNum KInt (Fin 5); VStr (zs "-")]], None).
+Proof. vm_compute. reflexivity. Qed.
+
 Print Assumptions C14_transpose_involutive.
+Print Assumptions C14_pivot_cell_law.
+Print Assumptions C14_pivot_groups_of_a_sorted_stream.
+Print Assumptions C14_fromdicts_dicts_id.
+Print Assumptions C14_fromcolumns_columns_id.
 Print Assumptions C14_recast_after_melt.
 Print Assumptions C14_recast_cell_is_the_melted_value.
 Print Assumptions C14_unflatten_flatten_id.
